@@ -23,7 +23,8 @@ def render(ts: Dict[str, Any]) -> str:
         kw['indent'] = 1
     text = json.dumps(ts['doc'], **kw)
     if ts.get('huge'):
-        text = text.replace(str(PLACEHOLDER), '7' * ts['huge'])
+        # 'huge': an integer literal of that many digits; 'overflow': a float literal beyond the double range (parsed as inf)
+        text = text.replace(str(PLACEHOLDER), '7' * ts['huge'] if ts['huge'] != 'overflow' else '1e400')
     pad = ts.get('pad', '')
     text = pad + text + pad
     m = ts.get('mangle')
@@ -111,7 +112,7 @@ class DocGen:
         self.s_inner = st.sampled_from([1, None, 'x'])
         self.s_nshape = st.sampled_from(['list', 'dict', 'mixed'])
         self.s_where = st.sampled_from(['params-list', 'params-dict', 'doc'])
-        self.s_hugedigits = st.sampled_from([4300, 4301, 10000])
+        self.s_hugedigits = st.sampled_from([4300, 4301, 10000, 'overflow'])
         self.s_nbatch0 = st.integers(0, max_batch)
         self.s_nbatch1 = st.integers(1, max_batch)
         self.s_dup = st.integers(0, 3)
@@ -185,6 +186,8 @@ class DocGen:
                 el[member] = draw(self.s_alpha)
         if huge:
             where = draw(self.s_hugewhere)
+            if huge == 'overflow' and where in ('param', 'nested'):
+                where = 'id'      # a non-finite float inside params would come back through the echo methods (C01's proviso)
             if where == 'id':
                 el['id'] = PLACEHOLDER
             elif where == 'param':
@@ -217,10 +220,10 @@ class DocGen:
         if huge:
             ts['huge'] = draw(self.s_hugedigits)
         if kind in ('single', 'huge', 'mangled') and draw(self.s_bool):
-            ts['doc'] = self._element(draw, huge)
+            ts['doc'] = self._element(draw, ts['huge'] if huge else False)
         else:
             n = draw(self.s_nbatch0 if kind == 'batch' else self.s_nbatch1)
-            els = [self._element(draw, huge and i == 0) for i in range(n)]
+            els = [self._element(draw, (ts['huge'] if huge else False) if i == 0 else False) for i in range(n)]
             if n >= 2 and draw(self.s_dup) == 0:
                 # duplicate ids at a chosen pair of positions: same value, or "1" next to 1 (not a duplicate)
                 i, j = draw(self.s_pos) % n, draw(self.s_pos) % n
